@@ -25,6 +25,11 @@ class C08(ProgramProperty):
     def budget(self, tier):
         return 1500 if tier == "quick" else 40000
 
+    def exhaustive(self, tier):
+        from .. import smallscope
+
+        return smallscope.run(self.id, tier)
+
     def gen(self, rng, tier):
         delim = rng.choice(gen.DELIMS)
         recs = gen.records(rng, delim, patterns=False)
